@@ -150,3 +150,67 @@ Proof.
     cbn [closer] in E1. rewrite E1. cbn [obind app].
     exists s'. rewrite removelast_last. auto.
 Qed.
+
+(* ---- Writer.quote does not raise on a balanced value: the last token scan_bibtex_string yields is at level 0 *)
+Lemma last_nonnil_default {X} (l : list X) d e : l <> [] -> last l d = last l e.
+Proof. induction l as [|b l IH]; intros H; [congruence|]. cbn [last]. destruct l; [reflexivity|]. apply IH. discriminate. Qed.
+Lemma last_cons {X} (a : X) l d : last (a :: l) d = last l a.
+Proof. cbn [last]. destruct l as [|b l]; [reflexivity|]. apply last_nonnil_default. discriminate. Qed.
+
+Lemma last_snd_default (r : list tok) (a b : tok) : snd a = snd b -> snd (last r a) = snd (last r b).
+Proof. destruct r as [|x r]; [auto|]. intros _. now rewrite !last_cons. Qed.
+
+Lemma scan_bal : forall s level sp,
+  match sp with
+  | None => bal level s = Some 0%nat
+  | Some (d, _) => bal (S d) s = Some 0%nat
+  end ->
+  exists ts, scan_go s level sp = Ok ts /\
+             snd (last ts ([], match sp with None => level | Some _ => 1%nat end)) = 0%nat.
+Proof.
+  induction s as [|c t IH]; intros level sp H.
+  - destruct sp as [[d acc]|]; cbn in H; [discriminate|]. inversion H; subst. exists []. auto.
+  - destruct sp as [[d acc]|]; cbn [scan_go]; cbn [bal] in H.
+    + destruct (is_lbrace c) eqn:EL.
+      * change (Nat.ltb max_level (2 + d)) with (Nat.ltb nest_limit (S (S d))).
+        destruct (Nat.ltb nest_limit (S (S d))); [discriminate|].
+        apply (IH level (Some (S d, c :: acc)) H).
+      * destruct (is_rbrace c) eqn:ER.
+        -- destruct d as [|d'].
+           ++ destruct (IH 0%nat None H) as (r & E & L). rewrite E. cbn [bind]. eexists; split; [reflexivity|].
+              rewrite !last_cons. rewrite (last_snd_default r _ ([], 0%nat)); [exact L|reflexivity].
+           ++ apply (IH level (Some (d', c :: acc)) H).
+        -- apply (IH level (Some (d, c :: acc)) H).
+    + destruct (is_lbrace c) eqn:EL.
+      * change nest_limit with max_level in H.
+        destruct (Nat.ltb max_level (S level)) eqn:EN; [discriminate|].
+        destruct (Nat.eqb level 0 && match t with b :: _ => b =? c_bslash | [] => false end) eqn:ES.
+        -- apply andb_prop in ES as [E0 _]. apply Nat.eqb_eq in E0. subst level.
+           destruct (IH 0%nat (Some (0%nat, [])) H) as (r & E & L). rewrite E. cbn [bind]. eexists; split; [reflexivity|].
+           rewrite last_cons. rewrite (last_snd_default r _ ([], 1%nat)); [exact L|reflexivity].
+        -- destruct (IH (S level) None H) as (r & E & L). rewrite E. cbn [bind]. eexists; split; [reflexivity|].
+           rewrite last_cons. rewrite (last_snd_default r _ ([], S level)); [exact L|reflexivity].
+      * destruct (is_rbrace c) eqn:ER.
+        -- destruct level as [|l]; [discriminate|]. cbn [andb]. change ((0 <? S l)%nat) with true. cbn [Init.Nat.pred].
+           destruct (IH l None H) as (r & E & L). rewrite E. cbn [bind]. eexists; split; [reflexivity|].
+           rewrite last_cons. rewrite (last_snd_default r _ ([], l)); [exact L|reflexivity].
+        -- cbn [andb]. destruct (IH level None H) as (r & E & L). rewrite E. cbn [bind]. eexists; split; [reflexivity|].
+           rewrite last_cons. rewrite (last_snd_default r _ ([], level)); [exact L|reflexivity].
+Qed.
+
+Lemma quote_total_pf v : balanced v -> exists q, quote v = Ok q.
+Proof.
+  intros H. destruct (scan_bal v 0%nat None H) as (ts & E & L).
+  unfold quote, check_braces, scan. rewrite E. cbn [bind].
+  destruct ts as [|x r]; [cbn; eauto|]. rewrite L. cbn. eauto.
+Qed.
+
+(* quote then read, in one statement *)
+Lemma quote_read_pf v : balanced v ->
+  exists q, quote v = Ok q /\
+    forall m s tail, sc_rest (p_sc s) = q ++ tail ->
+      exists s', parse_value_part m s = Ret v s' /\ sc_rest (p_sc s') = tail /\ frame s' = frame s.
+Proof.
+  intros H. destruct (quote_total_pf v H) as (q & Q). exists q. split; [exact Q|].
+  intros m s tail Hr. now apply (quote_roundtrip_pf m v q s tail).
+Qed.
